@@ -23,6 +23,8 @@ type Case struct {
 	Pattern string `json:"pattern,omitempty"` // Retry: F = attempt fails, S = succeeds; attempts beyond the pattern succeed
 	DelayMs int    `json:"delay_ms,omitempty"`
 	Typ     string `json:"typ,omitempty"` // counter type for After/Before: int | int8 | int64
+	First   int    `json:"first,omitempty"`   // Once: the callback's first result (0 = the zero value of the result type)
+	WorkMs  []int  `json:"work_ms,omitempty"` // RetryWithDelay: virtual time attempt i spends inside the callback (cycled)
 }
 
 func run(w *core.Worker, c Case) {
@@ -113,17 +115,30 @@ func run(w *core.Worker, c Case) {
 			}
 			nontrivial = c.Calls > c.N && c.N > 0
 		case "Once":
+			// The first result is c.First (0 = the zero value, which must be cached like any
+			// other); a re-run would return something else, so both the counter and the value
+			// expose it.
 			ch := cache.New[string, int](cache.DefaultExpiration, cache.NoExpiration)
 			runs := 0
-			fn := func() int { runs++; return runs * 10 }
+			fn := func() int { runs++; return c.First + (runs-1)*10 }
 			for i := 1; i <= c.Calls; i++ {
 				got := gogu.Once[string, int, int](ch, fn)
 				if runs != 1 {
-					fail("count", "Once: after call %d the callback has run %d times", i, runs)
+					fail("count", "Once (first result %d): after call %d the callback has run %d times", c.First, i, runs)
 					return
 				}
-				if got != 10 {
-					fail("value", "Once: call %d returned %d, want the first result 10", i, got)
+				if got != c.First {
+					fail("value", "Once: call %d returned %d, want the first result %d", i, got, c.First)
+					return
+				}
+			}
+			// bool results: false is the zero value
+			cb := cache.New[string, bool](cache.DefaultExpiration, cache.NoExpiration)
+			bruns := 0
+			for i := 1; i <= c.Calls; i++ {
+				got := gogu.Once[string, bool, int](cb, func() bool { bruns++; return (c.First != 0) == (bruns == 1) })
+				if bruns != 1 || got != (c.First != 0) {
+					fail("count-bool", "Once (bool result, first %v): after call %d the callback has run %d times, returned %v", c.First != 0, i, bruns, got)
 					return
 				}
 			}
@@ -171,7 +186,7 @@ func run(w *core.Worker, c Case) {
 			nontrivial = wantCalls >= 2
 		case "RetryWithDelay":
 			d := time.Duration(c.DelayMs) * time.Millisecond
-			var stamps []time.Duration
+			var stamps, ends []time.Duration
 			var lastErr error
 			var attempts int
 			var err error
@@ -181,6 +196,10 @@ func run(w *core.Worker, c Case) {
 				fn := func(since time.Duration, in string) error {
 					stamps = append(stamps, time.Since(t0))
 					k := len(stamps)
+					if len(c.WorkMs) > 0 { // the attempt itself takes (virtual) time
+						time.Sleep(time.Duration(c.WorkMs[(k-1)%len(c.WorkMs)]) * time.Millisecond)
+					}
+					ends = append(ends, time.Since(t0))
 					if k-1 < len(c.Pattern) && c.Pattern[k-1] == 'F' {
 						lastErr = fmt.Errorf("attempt %d failed", k)
 						return lastErr
@@ -195,8 +214,9 @@ func run(w *core.Worker, c Case) {
 				return
 			}
 			for i := 1; i < len(stamps); i++ {
-				if gap := stamps[i] - stamps[i-1]; gap < d {
-					fail("too-early", "RetryWithDelay(n=%d, %v): attempts %d and %d are %v apart (virtual time)", c.N, d, i, i+1, gap)
+				// the wait lies between the end of one attempt and the start of the next
+				if gap := stamps[i] - ends[i-1]; gap < d {
+					fail("too-early", "RetryWithDelay(n=%d, %v, work %v ms): attempt %d started %v after attempt %d ended (virtual time; starts %v, ends %v)", c.N, d, c.WorkMs, i+1, gap, i, stamps, ends)
 					return
 				}
 			}
@@ -209,8 +229,8 @@ func run(w *core.Worker, c Case) {
 					fail("error", "RetryWithDelay(n=%d, pattern %q): returned error %v, error expected: %v", c.N, c.Pattern, err, wantErr)
 					return
 				}
-				if len(stamps) > 0 && elapsed < stamps[len(stamps)-1] {
-					fail("elapsed", "RetryWithDelay reported %v elapsed, last attempt was at %v", elapsed, stamps[len(stamps)-1])
+				if len(ends) > 0 && elapsed < ends[len(ends)-1] {
+					fail("elapsed", "RetryWithDelay reported %v elapsed, last attempt ended at %v", elapsed, ends[len(ends)-1])
 					return
 				}
 			}
@@ -265,7 +285,7 @@ func patterns(maxLen int) []string {
 func TestProp(t *testing.T) {
 	r := core.Start(t, "C18")
 	defer r.Finish()
-	r.Rule("cases = one use of After/Before/Once (n in -2..8, 0..12 calls, counter types int/int8/int64, fresh no-expiry cache) or Retry/RetryWithDelay (n in -2..8, every success/failure pattern up to length 8; RetryWithDelay inside a testing/synctest bubble so that the gaps between attempts are exact) with a counting callback: runs per call, returned values, attempt counts, last error, gaps >= delay; non-trivial = the callback is suppressed at least once after having been allowed (resp. >= 2 attempts); distinct by hash of the case")
+	r.Rule("cases = one use of After/Before/Once (n in -2..8, 0..12 calls, counter types int/int8/int64, fresh no-expiry cache) or Retry/RetryWithDelay (n in -2..8, every success/failure pattern up to length 8; RetryWithDelay inside a testing/synctest bubble so that the gaps between attempts are exact) with a counting callback: runs per call, returned values, attempt counts, last error, gaps between the end of an attempt and the start of the next >= delay (attempts may themselves take virtual time); non-trivial = the callback is suppressed at least once after having been allowed (resp. >= 2 attempts); distinct by hash of the case")
 
 	core.Monitor(r, "count-sweep", 0, func(emit func(Case)) {
 		var n int64
@@ -282,8 +302,10 @@ func TestProp(t *testing.T) {
 			}
 		}
 		for calls := 0; calls <= 12; calls++ {
-			emit(Case{Fn: "Once", Calls: calls})
-			n++
+			for _, first := range []int{10, 0, -1, 1} {
+				emit(Case{Fn: "Once", Calls: calls, First: first})
+				n++
+			}
 		}
 		pats := patterns(8)
 		for nn := -2; nn <= 8; nn++ {
@@ -297,8 +319,15 @@ func TestProp(t *testing.T) {
 					emit(Case{Fn: "RetryWithDelay", N: nn, Pattern: p, DelayMs: d})
 					n++
 				}
+				// attempts that take time themselves: shorter than, equal to and longer than the delay
+				if len(p) <= 6 {
+					for _, wk := range [][]int{{3}, {7}, {21}, {21, 0}, {0, 30, 2}, {8, 8, 40}} {
+						emit(Case{Fn: "RetryWithDelay", N: nn, Pattern: p, DelayMs: 7, WorkMs: wk})
+						n++
+					}
+				}
 			}
 		}
-		r.Exhaustive("After/Before: n in -2..8 x calls 0..12 x counter types; Once: calls 0..12; Retry and RetryWithDelay: n in -2..8 x ALL success/failure patterns of length<=8 (delays 1/7/50 ms, virtual time)", n)
+		r.Exhaustive("After/Before: n in -2..8 x calls 0..12 x counter types; Once: calls 0..12 x first result {10, 0 (zero value), -1, 1} for int, bool and string results; Retry and RetryWithDelay: n in -2..8 x ALL success/failure patterns of length<=8 (delays 1/7/50 ms, virtual time; patterns of length<=6 also with six schedules of time spent inside the attempts)", n)
 	}, run)
 }
